@@ -174,6 +174,19 @@ class TypeArg:
         return self.cls + ("".join("+" + f for f in sorted(self.flags)))
 
 
+def not_a_class(a: "TypeArg") -> bool:
+    """True for descriptors of objects that are not classes: instances (a TypeVar), and typing special forms such as
+    typing.Callable / typing.Any (issubclass raises on them, inspect.isclass is False)."""
+    if "instance" in a.flags:
+        return True
+    if a.subscripted or a.flags:
+        return False
+    try:
+        return not isinstance(oracle.stdlib_class(a.cls), type)
+    except Exception:
+        return False
+
+
 def _flat(b):
     """Class tuples given to isinstance/issubclass may nest."""
     if isinstance(b, tuple) and not (b and isinstance(b[0], str)):
@@ -248,8 +261,22 @@ class PredEval:
         return None
 
     def call_function(self, f: FuncInfo, args: list, depth):
-        if depth > 6:
+        if depth > 14:
             return None
+        try:
+            ck = (f.qualname, tuple(args), bool(getattr(self, "interpret_origin", False)))
+            hash(ck)
+        except TypeError:
+            ck = None
+        memo = self.__dict__.setdefault("_memo", {})
+        if ck is not None and ck in memo:
+            return memo[ck]
+        r = self._call_function(f, args, depth)
+        if ck is not None and r is not None:
+            memo[ck] = r
+        return r
+
+    def _call_function(self, f: FuncInfo, args: list, depth):
         params = [p for p in f.params]
         env0 = dict(zip(params, args))
         results = []
@@ -403,8 +430,9 @@ class PredEval:
             a, b = (args + [None, None])[:2]
             if not isinstance(a, TypeArg):
                 return None
-            if a.subscripted:
-                # issubclass(list[int], X) raises TypeError; the safe form returns False
+            if a.subscripted or not_a_class(a):
+                # issubclass(list[int], X) / issubclass(<TypeVar>, X) / issubclass(typing.Callable, X) raise TypeError;
+                # the safe form returns False
                 return False if fn.endswith("_safe_issubclass") else ("raises",)
             targets = _flat(b)
             res = False
@@ -441,7 +469,12 @@ class PredEval:
         if fn == "builtins.isinstance" and len(args) == 2 and isinstance(args[0], TypeArg):
             a, b = args
             targets = _flat(b)
-            if a.flags or not all(isinstance(x, TypeArg) for x in targets):
+            if "instance" in a.flags and all(isinstance(x, TypeArg) for x in targets):
+                try:
+                    return any(issubclass(oracle.stdlib_class(a.cls), oracle.stdlib_class(x.cls)) for x in targets)
+                except Exception:
+                    return None
+            if a.flags - {"namedtuple", "typeddict", "annotated"} or not all(isinstance(x, TypeArg) for x in targets):
                 return None
             try:
                 import types as _types
@@ -495,11 +528,11 @@ class PredEval:
         if fn in (f"{INSP}.args", "typing.get_args"):
             a = args[0] if args else None
             if isinstance(a, TypeArg):
-                return tuple(x if x == "..." else TypeArg(x) for x in a.args) if a.subscripted else ()
+                return tuple(x if x == "..." else (("unhashable", "list") if x == "[]" else TypeArg(x)) for x in a.args) if a.subscripted else ()
             return None
         if fn == "inspect.isclass":
             a = args[0] if args else None
-            return (not a.subscripted) if isinstance(a, TypeArg) else None
+            return (not a.subscripted and not not_a_class(a)) if isinstance(a, TypeArg) else None
         if fn == "builtins.hasattr":
             a = args[0] if args else None
             nm = args[1] if len(args) > 1 else None
@@ -508,6 +541,11 @@ class PredEval:
                     return "namedtuple" in a.flags
                 if nm == "__total__":
                     return "typeddict" in a.flags
+                if nm == "__args__":
+                    return a.subscripted
+                if "instance" in a.flags:
+                    inst = oracle.sample_instance(a.cls)
+                    return None if inst is None else hasattr(inst, nm)
                 try:
                     return hasattr(oracle.stdlib_class(a.cls), nm)
                 except Exception:
